@@ -1760,6 +1760,9 @@ func (ls *LState) SetGlobal(name string, value LValue) {
 }
 
 func (ls *LState) Next(tb *LTable, key LValue) (LValue, LValue) {
+	if !tb.validNextKey(key) {
+		ls.RaiseError("invalid key to 'next'")
+	}
 	return tb.Next(key)
 }
 
